@@ -915,6 +915,10 @@ def run(prog, rep, tier):
     from ..flow import check_undefined_attrs
     rep.rule('ATTR-defined', 'every self.X read names an attribute bound somewhere in the class family')
     check_undefined_attrs(prog, rep, ['tenpy/networks/site.py'])
+    from ..flow import check_carried_flags
+    rep.rule('LOOP-carried-flag', 'a flag set under a test inside a loop body and read there is '
+             're-initialised per iteration')
+    check_carried_flags(prog, rep, ['tenpy/networks/site.py'])
     return rep.finish(
         level='other',
         explanation='Operator-registry coupling, Jordan-Wigner routing, parameter-family '
